@@ -398,6 +398,11 @@ def getTriggersH (h : HSM) (p : Path) : List Name :=
     | _ => []) ++
   (prefixesDesc p).flatMap (scopeTriggers (h.scopeEvents []))
 
+/-- the triggers the machine knows in ANY scope (root events and the events declared inside states): the event
+methods a model must carry — `HierarchicalMachine.remove_transition` takes a method off the models only when
+`get_transitions(trigger)` finds nothing in any scope -/
+def HSM.knownEvents (h : HSM) : List Name := h.scopes.flatMap fun sc => sc.2.map (·.1)
+
 def declared (evs : List (Name × List Path)) (e : Name) (q : Path) : Bool :=
   match kget e evs with
   | some srcs => srcs.contains q
